@@ -523,6 +523,9 @@ class AgentExecutingComponent(rpu.AgentComponent):
 
                 if isinstance(entry, str):
                     entry = {str(rank_id): entry}
+                else:
+                    # rank IDs may be given as integers
+                    entry = {str(k): v for k, v in entry.items()}
 
                 for cmd in ru.as_list(entry.get(str(rank_id))):
                     ret += '        ' + cmd_template % (cmd, sig)
